@@ -108,6 +108,9 @@ MUTANTS = [
     dict(prop="C28", name="FormulaProduct: indices of the second factor first", file="wannierberri/formula/formula.py", old="            self.einsumlines.append(\"LM\" + letters[:dim] + \",MN\" + letters[dim:dim + d] + \"->LN\" + letters[:dim + d])", new="            self.einsumlines.append(\"LM\" + letters[:dim] + \",MN\" + letters[dim:dim + d] + \"->LN\" + letters[dim:dim + d] + letters[:dim])"),
     dict(prop="C28", name="generalised derivative: sign of the first D term", file="wannierberri/formula/formula.py", old="        summ = self.dA.nn(ik, inn, out)\n        summ -= cached_einsum(\"mld,lnb...->mnb...d\", self.D.nl(ik, inn, out), self.A.ln(ik, inn, out))", new="        summ = self.dA.nn(ik, inn, out)\n        summ += cached_einsum(\"mld,lnb...->mnb...d\", self.D.nl(ik, inn, out), self.A.ln(ik, inn, out))"),
     dict(prop="C28", expect="ok", name="PRESERVING: swapaxes written as transpose", file=STAT, old="        self.Formula = frml.DerSpin\n        self.fder = 0\n        super().__init__(constant_factor=constant_factor, **kwargs)\n\n    def __call__(self, data_K):\n        res = super().__call__(data_K)\n        # swap axes to be consistent with the eq. (29) of DOI:10.1038/s41524-021-00498-5\n        res.data = res.data.swapaxes(1, 2)", new="        self.Formula = frml.DerSpin\n        self.fder = 0\n        super().__init__(constant_factor=constant_factor, **kwargs)\n\n    def __call__(self, data_K):\n        res = super().__call__(data_K)\n        res.data = res.data.transpose(0, 2, 1)"),
+    dict(prop="C21", name="Dwann.get_on_points: phase with the irreducible k instead of its image", file="wannierberri/symmetry/Dwann.py", old="                  ] = np.exp(2j * np.pi * (np.dot(kptirr1, self.T[ip, isym]))) * self.rot_orb[ip, isym]", new="                  ] = np.exp(2j * np.pi * (np.dot(kptirr, self.T[ip, isym]))) * self.rot_orb[ip, isym]"),
+    dict(prop="C21", name="Dwann.get_on_points: block written on the diagonal (site map ignored)", file="wannierberri/symmetry/Dwann.py", old="            Dwann[jp * self.num_orbitals:(jp + 1) * self.num_orbitals,\n                  ip * self.num_orbitals:(ip + 1) * self.num_orbitals", new="            Dwann[ip * self.num_orbitals:(ip + 1) * self.num_orbitals,\n                  ip * self.num_orbitals:(ip + 1) * self.num_orbitals"),
+    dict(prop="C21", name="Dwann.get_on_points: blocks accumulated with a damping factor", file="wannierberri/symmetry/Dwann.py", old="                  ] = np.exp(2j * np.pi * (np.dot(kptirr1, self.T[ip, isym]))) * self.rot_orb[ip, isym]", new="                  ] = np.exp(2j * np.pi * (np.dot(kptirr1, self.T[ip, isym]))) * self.rot_orb[ip, isym] * (1.0 if jp >= ip else 0.5)"),
     dict(prop="C08", name="Morb_H declared even under TR", file=COV, old="        self.E = data_K.E_K\n        self.ndim = 1\n        self.transformTR = transform_odd", new="        self.E = data_K.E_K\n        self.ndim = 1\n        self.transformTR = transform_ident"),
     dict(prop="C08", name="Der3E declared even under inversion", file=COV, old="        self.ndim = 3\n        self.transformTR = transform_odd\n        self.transformInv = transform_odd", new="        self.ndim = 3\n        self.transformTR = transform_odd\n        self.transformInv = transform_ident"),
     dict(prop="C08", name="get_transform_TR: SS even", file=DK, old="    elif name in ['CC', 'FF', 'OO', 'GG', 'SS', 'rotAA', 'rotAAab', 'CCab_antisym']:  # odd before derivative\n        p = 1", new="    elif name in ['CC', 'FF', 'OO', 'GG', 'rotAA', 'rotAAab', 'CCab_antisym']:  # odd before derivative\n        p = 1\n    elif name in ['SS']:\n        p = 0"),
